@@ -15,6 +15,7 @@
 
 mod interp;
 mod prog;
+mod stdref;
 
 use interp::{World, LOG};
 use std::cell::RefCell;
@@ -236,6 +237,7 @@ pub fn run_program(line: &str, checkpoint: Option<&str>, opts: Opts) {
                         threads_safety(&format!("H {}", threads)),
                     ];
                     safe.extend(olines.iter().map(|o| obj_safety(o)));
+                    out(safe[0].clone());
                     out(format!("XS {:016x}", fnv1a(&safe.join("\n"))));
                     out(format!("XE {:016x}", fnv1a(&full.join("\n"))));
                 }
@@ -309,6 +311,27 @@ fn main() {
                 let _ = std::io::stdout().flush();
                 run_program(line, None, opts);
                 flush_out();
+            }
+        }
+        "std" => {
+            // C12 reference stream: the same operation lines on `std::sync::atomic`
+            let stdin = std::io::stdin();
+            for line in stdin.lock().lines() {
+                let line = line.unwrap();
+                let line = line.trim();
+                if line.is_empty() || line.starts_with('#') {
+                    continue;
+                }
+                println!("PROG {}", line);
+                match prog::parse(line) {
+                    Some(p) if p.threads.len() == 1 => {
+                        let (rets, fin) = stdref::run(p.cfg.ty, &p.threads[0]);
+                        let r: Vec<String> = rets.iter().map(|r| r.render()).collect();
+                        println!("STD {} | {}", r.join(" "), fin);
+                        println!("DONE 1 ok");
+                    }
+                    _ => println!("DONE 0 parseError"),
+                }
             }
         }
         _ => {
